@@ -178,10 +178,11 @@ CLAIMED.update({
             "registers its queue before the bytes leave and removes it after reply / send failure / timeout / foreign reply, and a "
             "second requester never receives anything left over from the first transaction; ProtocolDispatcher start/stop sequences "
             "(all of length <= 4, real threads) never leave more than one live consumer.",
-            "Trusted: CrossHair + chx; single-threaded rig (inline sender), T3 = 0 for timeouts. NOT covered: in-order/once delivery "
-            "under true preemption between the receiver, dispatcher and timer threads (queue.Queue / Event are C-level and are not "
-            "encoded); distinctness of ids when several threads call get_next_system_counter at once (no lock in the code; the "
-            "schedule encoding E3 for it is described in DESIGN.md §2.3).",
+            "Concurrency: the live bytecode of get_next_system_counter is executed symbolically for 2 threads with the schedule as "
+            "a z3 variable (E3): no schedule returns equal ids; a model is replayed on real threads. "
+            "Trusted: CrossHair + chx, z3, engine/ilv (bytecode subset, switch between any two bytecodes); single-threaded rig "
+            "(inline sender), T3 = 0 for timeouts. NOT covered: in-order/once delivery under true preemption between the receiver, "
+            "dispatcher and timer threads (queue.Queue / Event are C-level and are not encoded); 3 or more concurrent requesters.",
             "DESIGN.md §3 C06"),
     "C08": ("One inbound primary against the real handlers in COMMUNICATING state: every stream 0..127 and odd function (quick < 32), "
             "W-bit, all 2^32 system bytes, built-in handlers / a user callback returning the secondary / raising / returning nothing; "
@@ -234,6 +235,19 @@ CLAIMED.update({
             "sequential pieces are C05/C07/C09. Trusted: CrossHair + chx; both handlers constructed in COMMUNICATING state; synchronous "
             "loopback; inline sender thread.",
             "DESIGN.md §3 C20"),
+})
+
+CLAIMED.update({
+    "C03": ("Per catalogued function: a structure-conforming plain value is generated from the live _data_format tree (open lists "
+            "0..2, symbolic ints over the full range of the item's first - and for length-limited numeric items a multi-byte - "
+            "alternative type, symbolic text/bytes/bools, length-limited items at their limit); the bytes produced are parsed by the "
+            "independent E5 decoder and must denote the value, get() returns the plain value unchanged; the same structure with fresh "
+            "symbolic payload bytes is decoded via StreamsFunctions().decode (class found by stream/function only) and must re-encode "
+            "identically with the reference values. Catalogue attributes (direction, reply, reply-required, multi-block), pairing "
+            "and the YAML are compared as z3 facts over a symbolic (stream, function) index. Quick: 60+ functions, thorough: all 134.",
+            "Trusted: CrossHair + chx, z3, oracles/refe5.py. Outside: lists > 2 (> 1 for five deeply nested functions), alternative "
+            "types other than the first / one multi-byte alternative, float leaves fixed.",
+            "DESIGN.md §3 C03"),
 })
 
 NOT_APPLICABLE = {
